@@ -5,13 +5,13 @@ CONSTANTS
   Direct = TRUE
   Keep <- KeepAll
   NLoads = 1
-  Toggle = TRUE
+  Toggle = FALSE
   RemoveDeletesEntry = TRUE
   VersionGuard = TRUE
   StampGate = TRUE
   ReaderMaintains = FALSE
   StampAheadRebuilds = FALSE
-  MaxLen = 14
+  MaxLen = 10
 INIT Init
 NEXT Next
 VIEW StateView
